@@ -116,4 +116,120 @@ theorem continuation_eq (p : Padder) (hB : p.blocksize = 8 * p.blocklen) (hbl : 
     cases L2 <;> simp [Nat.add_assoc]
   simp only [h8, effLen, e1, e2]
 
+/-! ### an empty last piece -/
+
+/-- schemes that add at least one pad bit to every message -/
+def AlwaysPads : Model.Scheme → Prop
+  | .no | .null => False
+  | _ => True
+
+/-- behind a full block the pad is the pad of an empty tail one block later -/
+theorem modelTail_full (p : Padder) (hv : Valid p) (hap : AlwaysPads p.scheme) (base : Nat) :
+    modelTail p base p.blocksize = modelTail p (base + p.blocksize) 0 := by
+  have hB := hv.size_eq; have hpos := hv.pos; have hw := hv.scheme_ok; have hbl := hv.blocklen_pos
+  cases hs : p.scheme with
+  | no => simp [hs, AlwaysPads] at hap
+  | null => simp [hs, AlwaysPads] at hap
+  | bit => simp [modelTail, hs]
+  | pkcs7 =>
+    have : p.blocksize / 8 = p.blocklen := rfl
+    simp [modelTail, hs, padQ, this]
+  | x923 =>
+    have : p.blocksize / 8 = p.blocklen := rfl
+    simp [modelTail, hs, padQ, this]
+  | md w =>
+    rw [hs] at hw; simp only at hw
+    have : mdN p.blocksize 1 (2 * w) p.blocksize = mdN p.blocksize 1 (2 * w) 0 := by
+      unfold mdN; split <;> (try split) <;> omega
+    simp only [modelTail, hs, this, Nat.add_zero]
+  | sha w =>
+    rw [hs] at hw; simp only at hw
+    have : mdN p.blocksize 1 (2 * w) p.blocksize = mdN p.blocksize 1 (2 * w) 0 := by
+      unfold mdN; split <;> (try split) <;> omega
+    simp only [modelTail, hs, this, Nat.add_zero]
+  | blake h =>
+    rw [hs] at hw; simp only at hw
+    have hW : 2 + 2 * Padder.blakeW h ≤ p.blocksize := by
+      by_cases hb : h > 256
+      · have e1 : Padder.blakeW h = 64 := by simp [Padder.blakeW, hb]
+        have e2 : p.blocksize = 1024 := by simp [hw, hb]
+        omega
+      · have e1 : Padder.blakeW h = 32 := by simp [Padder.blakeW, hb]
+        have e2 : p.blocksize = 512 := by simp [hw, hb]
+        omega
+    have : mdN p.blocksize 2 (2 * Padder.blakeW h) p.blocksize = mdN p.blocksize 2 (2 * Padder.blakeW h) 0 := by
+      unfold mdN; split <;> (try split) <;> omega
+    simp only [modelTail, hs, this, Nat.add_zero]
+
+theorem tailPadcnt_full (p : Padder) (hv : Valid p) (hap : AlwaysPads p.scheme) (old : Nat) :
+    tailPadcnt p old p.blocksize = tailPadcnt p old 0 := by
+  have h := modelTail_full p hv hap 0
+  have h2 := modelTail_length_base p (0 + p.blocksize) 0 0
+  cases hs : p.scheme <;> simp only [tailPadcnt, hs] <;> rw [h, h2]
+
+/-- an empty last piece after block-aligned data: same blocks, same counters, same final state as one call -/
+theorem continuation_empty_eq (p : Padder) (hv : Valid p) (hap : AlwaysPads p.scheme) (st : PadState)
+    (hflag : st.padflag = false) (m1 : List Nat) (hm : Bytes m1) (n : Nat)
+    (hm1 : 8 * m1.length = (n + 1) * p.blocksize) :
+    p.iterblocks st m1 none true =
+      ⟨p.loopYields st m1 n ++
+         [(p.blockAt m1 n, { padflag := true, bitcnt := st.bitcnt + 8 * m1.length, padcnt := tailPadcnt p st.padcnt 0 }),
+          (bitsToBytes (modelTail p (st.bitcnt + 8 * m1.length) 0),
+            { padflag := true, bitcnt := 0, padcnt := tailPadcnt p st.padcnt 0 })],
+       { padflag := true, bitcnt := 0, padcnt := tailPadcnt p st.padcnt 0 }, none⟩ ∧
+    p.iterblocks { st with bitcnt := st.bitcnt + 8 * m1.length } [] none true =
+      ⟨[(bitsToBytes (modelTail p (st.bitcnt + 8 * m1.length) 0),
+            { padflag := true, bitcnt := 0, padcnt := tailPadcnt p st.padcnt 0 })],
+       { padflag := true, bitcnt := 0, padcnt := tailPadcnt p st.padcnt 0 }, none⟩ := by
+  have hB := hv.size_eq; have hpos := hv.pos; have hbl := hv.blocklen_pos
+  have hn1 : (n + 1) * p.blocksize = n * p.blocksize + p.blocksize := Nat.succ_mul _ _
+  have hnb : n * p.blocksize = 8 * (n * p.blocklen) := by rw [hB, Nat.mul_left_comm]
+  have hlen : m1.length = n * p.blocklen + p.blocklen := by omega
+  constructor
+  · have hrun := iterblocks_run p hv st hflag m1 hm none (Nat.le_refl _) (by simp)
+    have he : effLen m1 none = (n + 1) * p.blocksize := by simp [effLen, hm1]
+    have hk : kOf p m1 none = n := by
+      simp only [kOf, he, Padder.loopCount]
+      rw [if_neg (by omega)]
+      apply Nat.div_eq_of_lt_le <;> omega
+    have hr : rOf p m1 none = p.blocksize := by simp only [rOf, hk, he]; omega
+    have hpi : (p.blockAt m1 n).length = p.blocklen := by rw [blockAt_length]; omega
+    have htb : tailBytes p st m1 none
+        = p.blockAt m1 n ++ bitsToBytes (modelTail p (st.bitcnt + 8 * m1.length) 0) := by
+      simp only [tailBytes, hk, hr]
+      rw [List.take_of_length_le (by rw [bytesToBits_length, hpi]; omega),
+        bitsToBytes_bytesToBits_append _ (Bytes_blockAt p hm n), modelTail_full p hv hap]
+      congr 3; omega
+    have hmt : (bitsToBytes (modelTail p (st.bitcnt + 8 * m1.length) 0)).length = p.blocklen := by
+      have := modelTail_total p hv (st.bitcnt + 8 * m1.length) 0 (by omega) (by intro; rfl)
+        (by intro h; rw [h] at hap; exact hap)
+      have hmp := minPad_le p hv
+      rw [if_pos (by omega)] at this
+      rw [bitsToBytes_length]; omega
+    have hts : tailState p st m1 none
+        = { padflag := true, bitcnt := st.bitcnt + 8 * m1.length, padcnt := tailPadcnt p st.padcnt 0 } := by
+      simp only [tailState, hr, he, hm1, tailPadcnt_full p hv hap]
+      rw [if_neg (by omega)]
+    rw [hrun, if_neg (by rw [htb, List.length_append, hpi, hmt]; omega), hk, hts, htb,
+      List.take_left' hpi, List.drop_left' hpi]
+  · have hrun := iterblocks_run p hv { st with bitcnt := st.bitcnt + 8 * m1.length } hflag [] (by intro x hx; simp at hx)
+      none (Nat.le_refl _) (by simp)
+    have he : effLen ([] : List Nat) none = 0 := rfl
+    have hk : kOf p [] none = 0 := by simp [kOf, he, Padder.loopCount]
+    have hr : rOf p [] none = 0 := by simp [rOf, he]
+    have htb : tailBytes p { st with bitcnt := st.bitcnt + 8 * m1.length } [] none
+        = bitsToBytes (modelTail p (st.bitcnt + 8 * m1.length) 0) := by
+      simp [tailBytes, hk, hr, Padder.blockAt, bytesToBits_nil]
+    have hmt : (bitsToBytes (modelTail p (st.bitcnt + 8 * m1.length) 0)).length = p.blocklen := by
+      have := modelTail_total p hv (st.bitcnt + 8 * m1.length) 0 (by omega) (by intro; rfl)
+        (by intro h; rw [h] at hap; exact hap)
+      have hmp := minPad_le p hv
+      rw [if_pos (by omega)] at this
+      rw [bitsToBytes_length]; omega
+    have hts : tailState p { st with bitcnt := st.bitcnt + 8 * m1.length } [] none
+        = { padflag := true, bitcnt := 0, padcnt := tailPadcnt p st.padcnt 0 } := by
+      simp [tailState, hr]
+    rw [hrun, if_pos (by rw [htb, hmt]; exact Nat.le_refl _), hk, hts, htb]
+    simp [Padder.loopYields]
+
 end Proofs.Lemmas.Padding
